@@ -83,8 +83,13 @@ func (g *richGen) xpathInto(d D, v *Vocab, multi bool) (string, D) {
 	p := g.pickPath(v, multi)
 	if g.r.Chance(1, 8) {
 		g.Stats["xpath_dynamic"]++
-		// xpath_dynamic: const, or concat of const pieces
-		if g.r.Bool() || len(p) < 2 {
+		// xpath_dynamic: const, or concat of const pieces, or (rarely) a field of the record whose text is then used as the xpath
+		if g.r.Chance(1, 5) {
+			fd := D{"xpath": g.pickPath(v, false)}
+			d["xpath_dynamic"] = fd
+			g.pool = append(g.pool, fd) // the same declaration text also shows up as a regular declaration elsewhere
+			g.Stats["xpath_dynamic_from_field"]++
+		} else if g.r.Bool() || len(p) < 2 {
 			d["xpath_dynamic"] = D{"const": p}
 		} else {
 			cut := g.r.Range(1, len(p)-1)
@@ -322,6 +327,11 @@ func (g *richGen) anyDecl(v *Vocab, depth int, inArray bool) D {
 			} else if len(v.Anchor) > 0 {
 				d["xpath"] = v.Anchor[r.Intn(len(v.Anchor))]
 			}
+			if xp, ok := d["xpath"].(string); ok && r.Chance(1, 3) {
+				delete(d, "xpath")
+				d["xpath_dynamic"] = D{"const": xp}
+				g.Stats["template_ref_with_xpath_dynamic"]++
+			}
 		}
 		return d
 	default:
@@ -404,6 +414,24 @@ func GenRichDecls(r *core.Rand, v *Vocab, o RichOpts) (D, map[string]int) {
 				}
 			}
 		}
+	}
+	// the same template referenced from the same cursor through two different dynamic anchors
+	for _, name := range g.tmplNames {
+		if g.tmplHasXP[name] || len(v.Anchor) < 2 || !r.Chance(1, 3) {
+			continue
+		}
+		p := r.Perm(len(v.Anchor))
+		obj["tdyn1"] = D{"xpath_dynamic": D{"const": v.Anchor[p[0]]}, "template": name}
+		obj["tdyn2"] = D{"xpath_dynamic": D{"const": v.Anchor[p[1]]}, "template": name}
+		obj["tsta"] = D{"xpath": v.Anchor[p[1]], "template": name}
+		g.Stats["template_ref_with_xpath_dynamic"] += 2
+		break
+	}
+	// a function of constants only, gated by its own xpath (matches for some records, not for others)
+	if r.Chance(1, 3) {
+		gate := g.pickPath(v, r.Bool())
+		obj["staticfn"] = D{"xpath": gate, "custom_func": D{"name": r.Pick("concat", "upper", "vf_s"), "args": []interface{}{D{"const": "static"}}}}
+		g.Stats["static_func_gated_by_xpath"]++
 	}
 	if r.Chance(1, 6) {
 		// an array with more than nine element declarations (element order must be declaration order)
